@@ -481,7 +481,15 @@ func (e *env) runCB() bool {
 	r := vh.NewRng(e.c.SchedSeed)
 	for iter := 0; iter < 5000; iter++ {
 		if !e.cbSettle() {
-			e.fail("operation-blocks-unexpectedly", "a goroutine released by the controller neither reached its next hook point nor a known waiting place within 3 s")
+			sig, det := "operation-blocks-unexpectedly", "a goroutine released by the controller neither reached its next hook point nor a known waiting place within 3 s"
+			e.mu.Lock()
+			for _, x := range e.allGs {
+				if x.cbPend {
+					sig, det = "batch-waiter-blocks-without-temporary-release", fmt.Sprintf("goroutine %d joined a batch group on a context that carries a holder and waits for the group without having entered TemporarilyRelease: it keeps its token while it waits", x.id)
+				}
+			}
+			e.mu.Unlock()
+			e.fail(sig, det)
 			return false
 		}
 		var ds []cbDecision
